@@ -25,6 +25,10 @@ CHECKS = {
                 text="Units: for every member and alias of DistanceUnit and both readers, z3 shows that for ALL real coordinates the value returned is within 1e-4 relative of the coordinate times an independent Angstrom-per-unit table (unsat), i.e. physical distances are unchanged; models are replayed through the real text parsers. Round trip: every element in every geometry class, 0-3 atoms, 1-3 frames and a coordinate menu read back with count, order, elements and coordinates to 1e-6.",
                 note="Reals, not floats, in the unit proof (factor rounding sits inside the tolerance); the text round trip is selector-bound; the parsers are replaced by a one-block stub in the SR part only.",
                 design="3/C08"),
+    "C10": dict(engine="XH", technique="CrossHair symbolic execution of the real mol2/xyz readers with the damage position (byte offset, line, token) and kind as symbolic selectors; z3 decides each path [selector-bound]",
+                text="For the generated 2-molecule mol2 and 2-frame xyz texts: every truncation offset, every single line deletion/duplication and every single token corruption (integer +-1, numeric -> 'x', token dropped) leads to an exception or to molecules that have exactly the atom/bond counts of their own header and the content of the corresponding undamaged molecule; the readers terminate (line budget). Exhaustive over single damages of these two texts.",
+                note="Selector-bound (the solver enumerates positions; a symbolic offset into concrete text is realised by CrossHair). Cuts inside the last numeric token of the file are undetectable for any reader and only checked for counts. Multiple simultaneous damages and other files are outside the bound.",
+                design="3/C10"),
     "C14": dict(engine="XH+SHP", technique="CrossHair symbolic execution of the real ConformerEnsemble/Conformer code on a shape-level numpy model with symbolic extents (n_conformers up to 1000), plus real-numpy content scenarios; z3 decides each path",
                 text="One inductive step from an arbitrary rectangular state: for every constructor branch, each of 17 operations, all n_conformers in [0,1000] (symbolic, linear integer arithmetic over array extents), n_atoms 0..3 and every conformer index, the three parallel arrays keep matching extents and every conformer view reads coordinates and charges. On real numpy (extents <= 3): writes through a conformer change row i only, iteration (nested, interleaved, suspended) visits each conformer once in order, grown ensembles dump and serialise.",
                 note="The shape model (engine/shapenp.py) is validated against numpy on ~10k concrete shape cases per run; array *content* is only checked at concrete small extents; a symbolic conformer index bypasses __getitem__'s match statement (CrossHair artefact) and constructs the Conformer directly.",
